@@ -809,10 +809,16 @@ def r_tab_cfb(ctx, rep):
                 keys, ca = pat_keys(arm["pat"])
                 v = None
                 b = unwrap(arm["body"])
+                def val(x):
+                    x = unwrap(x)
+                    # `Ok(512)` / `Some(512)` when the table moved into a helper that returns a Result
+                    if isinstance(x, dict) and x.get("k") == "Call" and (callee(x) or "").rsplit("::", 1)[-1] in ("Ok", "Some") and len(x.get("args", [])) == 1:
+                        return lit_value(x["args"][0])
+                    return lit_value(x)
                 if b.get("k") == "BlockExpr" and b["block"].get("expr") is not None:
-                    v = lit_value(b["block"]["expr"])
+                    v = val(b["block"]["expr"])
                 else:
-                    v = lit_value(b)
+                    v = val(b)
                 for k in keys:
                     if k[0] == "int":
                         rows.append((k[1], v))
